@@ -17,20 +17,13 @@ def one (tid):
       r = subprocess.run(['patch', '-p1', '-s', '-f', '-d', tmp, '-i', V + '/selftest/benign/%s.diff' % tid], capture_output=True, text=True)
       if r.returncode: return tid, 'APPLY-FAILED', ''
     n_inl = 0; n_exp = 0
-    for dp, dn, fs in os.walk(os.path.join(tmp, 'pox')):
-      for f in fs:
-        if not f.endswith('.py'): continue
-        p = os.path.join(dp, f)
-        rel = os.path.relpath(p, tmp)[:-3].replace(os.sep, '.')
-        if rel.endswith('.__init__'): rel = rel[:-9]
-        try: tree = ast.parse(open(p, encoding='utf-8', errors='replace').read())
-        except SyntaxError: continue
-        st = {}
-        tree = norm.normalize_module(tree, rel, st)
-        n_inl += len(st[rel]['inlined']); n_exp += st[rel]['expanded']
-        src = open(p, encoding='utf-8', errors='replace').read()
-        head = src.split('\n')[0] if src.startswith('#!') else ''
-        open(p, 'w').write(ast.unparse(tree) + '\n')
+    # the very trees the checks analyse: a Repo over the scratch copy (normalisation with the cross-file view)
+    from pxa import model
+    repo_ = model.Repo(tmp, ['pox'])
+    for rel, m in sorted(repo_.modules.items()):
+      st = repo_.norm_stats.get(rel) or {}
+      n_inl += len(st.get('inlined', ())); n_exp += st.get('expanded', 0)
+      open(m.path, 'w').write(ast.unparse(m.tree) + '\n')
     r = subprocess.run('/venv/bin/python -m compileall -q pox >/dev/null 2>&1', shell=True, cwd=tmp)
     if r.returncode: return tid, 'COMPILE-FAIL', ''
     b = subprocess.run(['/venv/bin/python', V + '/tools/baseline.py', tmp], capture_output=True, text=True)
